@@ -65,7 +65,7 @@ func guard(c *ctx, what string, rep interface{}, limit time.Duration, f func()) 
 
 func main() {
 	a := vlib.ParseArgs()
-	res := vlib.NewResult("C16", a.Out, "hash inputs (lengths 0..40 over every residue mod 4, bytes >= 0x80); key sets (sizes 0..10^4, arbitrary bytes/lengths incl. empty, near-duplicates) x bits-per-key 1..64 exhaustively (+ 0, negative, >255, int-overflowing); tables written by table.Writer (raw and internal-key/iFilter, FilterBaseLg 1..12/default/large, block sizes 16..4096); DB programs replayed under 8 filter settings; non-trivial = a table spanning >= 3 filter partitions with >= 1 empty partition, a key set with >= 2 keys, or a DB program whose tables were consulted through a filter")
+	res := vlib.NewResult("C16", a.Out, "hash inputs (lengths 0..40 over every residue mod 4, bytes >= 0x80); key sets (sizes 0..10^4, arbitrary bytes/lengths incl. empty, near-duplicates) x bits-per-key 1..64 exhaustively (+ 0, negative, >255, int-overflowing); tables written by table.Writer (raw and internal-key/iFilter, FilterBaseLg 1..12/default/large, block sizes 16..4096); DB programs replayed under 8 filter settings; non-trivial = a table spanning >= 3 filter partitions with >= 1 empty partition, a key set with >= 2 keys, a DB program whose tables were consulted through a filter, a non-empty hash input, a filter of >= 2 bytes; distinct by (section, parameters, seed)")
 	defer res.Write()
 	c := &ctx{a: a, res: res}
 
@@ -157,6 +157,12 @@ func replay(c *ctx, path string) {
 		var dc dbCase
 		json.Unmarshal(doc.Case, &dc)
 		checkDB(c, dc)
+	case "has":
+		var hc struct{ Filter, Key string }
+		json.Unmarshal(doc.Case, &hc)
+		flt, key := unhexOr(hc.Filter), unhexOr(hc.Key)
+		rep := map[string]interface{}{"kind": "has", "filter": hc.Filter, "key": hc.Key}
+		checkHas(c, flt, key, rep)
 	default:
 		fmt.Fprintln(os.Stderr, "replay: unknown case kind", kind.Kind)
 		os.Exit(2)
